@@ -231,7 +231,7 @@ impl<'tcx> Interp<'tcx> {
                 Next::Item(v, m) => {
                     let t = self.closure_tys[*fty];
                     let f = f.clone();
-                    let parts = self.call_closure(std::mem::replace(st, State { frames: Vec::new(), atoms: Vec::new() }), &f, t, vec![v]);
+                    let parts = self.call_closure(std::mem::replace(st, State::empty()), &f, t, vec![v]);
                     match self.join_parts(parts) {
                         Some((s, r)) => {
                             *st = s;
@@ -249,7 +249,7 @@ impl<'tcx> Interp<'tcx> {
                         let f = f.clone();
                         // the predicate receives a reference to the item
                         let p = self.temp_slot(st, v.clone());
-                        let parts = self.call_closure(std::mem::replace(st, State { frames: Vec::new(), atoms: Vec::new() }), &f, t, vec![Val::Ref(p.clone())]);
+                        let parts = self.call_closure(std::mem::replace(st, State::empty()), &f, t, vec![Val::Ref(p.clone())]);
                         let Some((mut s, r)) = self.join_parts(parts) else { return Next::Unknown };
                         self.free_temp(&mut s, &p);
                         *st = s;
@@ -276,7 +276,7 @@ impl<'tcx> Interp<'tcx> {
                     Next::Item(v, false) => {
                         let t = self.closure_tys[*fty];
                         let f = f.clone();
-                        let parts = self.call_closure(std::mem::replace(st, State { frames: Vec::new(), atoms: Vec::new() }), &f, t, vec![v]);
+                        let parts = self.call_closure(std::mem::replace(st, State::empty()), &f, t, vec![v]);
                         let Some((s, r)) = self.join_parts(parts) else { return Next::Unknown };
                         *st = s;
                         match r {
@@ -540,6 +540,33 @@ impl<'tcx> Interp<'tcx> {
             let v = self.top_of(ret, 0);
             return one(v);
         }
+        if matches!(n, "core::result::Result::<T, E>::is_ok" | "core::result::Result::<T, E>::is_err" | "core::option::Option::<T>::is_some" | "core::option::Option::<T>::is_none") {
+            let v = self.deref_val(st, a.get(0)?);
+            if let Val::Enum(e) = &v {
+                // Result: Ok = 0, Err = 1; Option: None = 0, Some = 1
+                let want = if n.ends_with("is_ok") || n.ends_with("is_none") { 0 } else { 1 };
+                let has = e.variants.contains_key(&want);
+                let only = has && e.variants.len() == 1;
+                let r = if only { IntV::boolean(true) } else if !has { IntV::boolean(false) } else { IntV::any_bool() };
+                if r.is_const().is_none() {
+                    // partition by the answer so that callers branching on it keep the variant apart
+                    let mut yes = std::collections::BTreeMap::new();
+                    let mut no = std::collections::BTreeMap::new();
+                    for (k, fs) in &e.variants {
+                        if *k == want { yes.insert(*k, fs.clone()); } else { no.insert(*k, fs.clone()); }
+                    }
+                    if let Val::Ref(p) = a.get(0)? {
+                        let mut s1 = st.clone();
+                        let mut s2 = st.clone();
+                        s1.refine_at(p, Val::Enum(Rc::new(EnumV { variants: yes })));
+                        s2.refine_at(p, Val::Enum(Rc::new(EnumV { variants: no })));
+                        return Some(vec![(Some(s1), Val::Int(IntV::boolean(true))), (Some(s2), Val::Int(IntV::boolean(false)))]);
+                    }
+                }
+                return one(Val::Int(r));
+            }
+            return None;
+        }
         if n == "core::ops::Try::branch" {
             // Result<T,E> -> ControlFlow<Result<Infallible,E>, T>;  Continue = 0, Break = 1
             if let Val::Enum(e) = a.get(0)? {
@@ -677,7 +704,7 @@ impl<'tcx> Interp<'tcx> {
             let mut arr = ArrV::uniform(Val::Bot, nn);
             let f = a.get(0)?.clone();
             let slot = self.temp_slot(st, f);
-            let mut cur = std::mem::replace(st, State { frames: Vec::new(), atoms: Vec::new() });
+            let mut cur = std::mem::replace(st, State::empty());
             for i in 0..nn {
                 let parts = self.call_closure(cur, &Val::Ref(slot.clone()), tys[0], vec![Val::konst(i as i128, ITy::USIZE)]);
                 let Some((s, r)) = self.join_parts(parts) else {
@@ -803,7 +830,7 @@ impl<'tcx> Interp<'tcx> {
             loop {
                 match self.iter_next(st, &mut it) {
                     Next::Item(v, _) => {
-                        let parts = self.call_closure(std::mem::replace(st, State { frames: Vec::new(), atoms: Vec::new() }), &Val::Ref(slot.clone()), tys[1], vec![v]);
+                        let parts = self.call_closure(std::mem::replace(st, State::empty()), &Val::Ref(slot.clone()), tys[1], vec![v]);
                         let (s, _) = self.join_parts(parts)?;
                         *st = s;
                     }
@@ -1066,6 +1093,7 @@ impl<'tcx> Interp<'tcx> {
                 _ => false,
             };
             d.insert("covers_whole_buffer".to_string(), whole.to_string());
+            d.insert("request_index".to_string(), if st.rng_count == u32::MAX { "?".to_string() } else { st.rng_count.to_string() });
             let inst = self.stack.last().map(|b| b.name.clone()).unwrap_or_default();
             self.probes.push(Probe { what: "rng_call".into(), inst, ctx: String::new(), data: d });
             let mut s_ok = st.clone();
@@ -1080,11 +1108,26 @@ impl<'tcx> Interp<'tcx> {
             // failure may leave the buffer partially written
             let mut s_err = st.clone();
             self.write_ptr(&mut s_err, &b.push(PElem::IndexRange(s.lo, s.hi + l.hi - 1)), byte);
+            let idx = st.rng_count;
+            if idx != u32::MAX {
+                s_ok.rng_count = idx + 1;
+                s_err.rng_count = idx + 1;
+            }
             let ok = (Some(s_ok), res_ok(Val::unit()));
             let err = (Some(s_err), res_err(Val::Top));
             return Some(match self.rng_mode {
                 1 => vec![ok],
                 2 => vec![err],
+                m if m >= 3 => {
+                    // fault injection: exactly request number (m - 3) fails
+                    if idx == u32::MAX {
+                        vec![ok, err]
+                    } else if idx == (m as u32 - 3) {
+                        vec![err]
+                    } else {
+                        vec![ok]
+                    }
+                }
                 _ => vec![ok, err],
             });
         }
@@ -1200,7 +1243,7 @@ impl<'tcx> Interp<'tcx> {
     /// describe a byte-slice argument being absorbed by a hash
     pub fn describe_bytes(&self, st: &State, v: &Val) -> Absorb {
         match v {
-            Val::Opq(Opaque::Digest { kind, len, taint, .. }) => Absorb { src: format!("digest<{}>", kind), len_lo: *len as i128, len_hi: *len as i128, consts: None, taint: *taint, lin: None },
+            Val::Opq(Opaque::Digest { kind, len, taint, .. }) => Absorb { src: format!("digest<{}>", kind), len_lo: *len as i128, len_hi: *len as i128, consts: None, taint: *taint, taint_all: *taint, lin: None },
             _ => match self.slice_elems(st, v) {
                 Some((b, s, l)) => {
                     let mut src = self.describe_ptr(&b);
@@ -1213,13 +1256,16 @@ impl<'tcx> Interp<'tcx> {
                     }
                     let mut consts = None;
                     let mut taint = 0;
+                    let mut taint_all = 0xffu8;
                     let mut lin = None;
                     if let (Some(s0), Some(nn)) = (s.is_const(), l.is_const()) {
                         if nn <= 64 {
                             let mut cs = Vec::new();
+                            let mut all_const = true;
                             for i in 0..nn {
                                 let e = self.read_ptr(st, &b.push(PElem::Index(s0 + i)));
                                 taint |= e.taint_of();
+                                taint_all &= e.taint_of();
                                 match &e {
                                     Val::Int(x) => {
                                         let x = self.atoms(st).concretize(x).unwrap_or_else(|| x.clone());
@@ -1231,23 +1277,14 @@ impl<'tcx> Interp<'tcx> {
                                         }
                                         match x.is_const() {
                                             Some(c) => cs.push(c as u8),
-                                            None => {
-                                                cs.clear();
-                                                cs.push(0);
-                                                cs.truncate(0);
-                                                consts = None;
-                                                taint |= x.taint;
-                                                // not all constant
-                                                cs = vec![];
-                                                break;
-                                            }
+                                            None => all_const = false,
                                         }
                                     }
-                                    _ => {
-                                        cs = vec![];
-                                        break;
-                                    }
+                                    _ => all_const = false,
                                 }
+                            }
+                            if !all_const {
+                                cs.clear();
                             }
                             if cs.len() as i128 == nn && nn > 0 {
                                 consts = Some(cs);
@@ -1255,14 +1292,19 @@ impl<'tcx> Interp<'tcx> {
                         } else {
                             let e = self.read_ptr(st, &b.push(PElem::IndexRange(s0, s0 + nn - 1)));
                             taint |= e.taint_of();
+                            taint_all = 0;
                         }
                     } else {
                         let e = self.read_ptr(st, &b.push(PElem::IndexRange(s.lo, s.hi.saturating_add(l.hi))));
                         taint |= e.taint_of();
+                        taint_all = 0;
                     }
-                    Absorb { src, len_lo: l.lo, len_hi: l.hi, consts, taint, lin }
+                    if l.is_const() == Some(0) {
+                        taint_all = 0;
+                    }
+                    Absorb { src, len_lo: l.lo, len_hi: l.hi, consts, taint, taint_all, lin }
                 }
-                None => Absorb { src: format!("?{}", v.short()), len_lo: 0, len_hi: i128::MAX, consts: None, taint: 3, lin: None },
+                None => Absorb { src: format!("?{}", v.short()), len_lo: 0, len_hi: i128::MAX, consts: None, taint: 3, taint_all: 0, lin: None },
             },
         }
     }
@@ -1293,7 +1335,8 @@ pub fn render_absorbed(v: &[Absorb]) -> String {
                 Some(l) => format!("{{{}}}", l),
                 None => String::new(),
             };
-            format!("{}#{}{}{}", a.src, len, c, l)
+            let t = if a.taint != 0 { format!("~t{}{}", a.taint, if a.taint_all == a.taint { "all" } else { "" }) } else { String::new() };
+            format!("{}#{}{}{}{}", a.src, len, c, l, t)
         })
         .collect::<Vec<_>>()
         .join(" | ")
